@@ -476,6 +476,9 @@ func (x *Unit) spCall(st *State, e *ast.CallExpr, c *specCtx) Val {
 		return Val{x.uf("chan_sendready", SBool, ch.T, t.T), boolT}
 	case "parent":
 		return Val{x.uf("ctxparent", SIface, arg(0).T), arg(0).Typ}
+	case "cancels":
+		// cancels(f): the context that the cancel function f (from context.WithCancel/WithTimeout/...) cancels
+		return Val{x.uf("cancelctx", SIface, arg(0).T), x.ctxType()}
 	case "sent":
 		g := x.ghostGet(st, "chanSent")
 		return Val{Select(x.u.MapVal(g.T), arg(0).T), intT}
@@ -1130,6 +1133,18 @@ func (x *Unit) calleeResultType(e ast.Expr, idx int, c *specCtx) types.Type {
 	sig := fn.Type().(*types.Signature)
 	if idx < sig.Results().Len() {
 		return sig.Results().At(idx).Type()
+	}
+	return nil
+}
+
+// ctxType is context.Context (for values produced by the cancels builtin).
+func (x *Unit) ctxType() types.Type {
+	for _, p := range x.eng.allTypes {
+		if p.Path() == "context" {
+			if o := p.Scope().Lookup("Context"); o != nil {
+				return o.Type()
+			}
+		}
 	}
 	return nil
 }
